@@ -166,6 +166,39 @@ def _r1(model, res, c, um):
                               '%s converts between date-times and numbers on its own (%s) instead of going through the two converters: '
                               'its serials can disagree with the ones the operators and DATEVALUE see' % (key[1], hit), func=key[1])
     res.soft_floor('date<->number arithmetic sites', n, 2)
+    # the date-times the package itself produces are naive like the epoch they are measured from: an aware one (now(tz=...), astimezone())
+    # cannot be subtracted from it - every conversion of it to a serial raises TypeError
+    n_aware = 0
+    for key, (m, f) in sorted(cg.funcs.items()):
+        if key not in c.reach and key not in allowed:
+            continue
+        for node in walk_no_defs(f):
+            if not isinstance(node, ast.Call) or not isinstance(node.func, ast.Attribute):
+                continue
+            aware = None
+            if node.func.attr == 'astimezone':
+                aware = src(node)[:60]
+            elif node.func.attr in ('now', 'fromtimestamp', 'utcfromtimestamp') and 'datetime' in src(node.func.value) and \
+                    (any(kw.arg in ('tz', 'tzinfo') and not (isinstance(kw.value, ast.Constant) and kw.value.value is None) for kw in node.keywords) or
+                     (node.func.attr == 'now' and node.args) or (node.func.attr == 'fromtimestamp' and len(node.args) > 1)):
+                aware = src(node)[:60]
+            if aware is None:
+                continue
+            # made naive again before it leaves?  x.replace(tzinfo=None) somewhere up the attribute chain
+            up, naive = m.parent(node), False
+            while isinstance(up, (ast.Attribute, ast.Call)):
+                if isinstance(up, ast.Call) and isinstance(up.func, ast.Attribute) and up.func.attr == 'replace' and any(
+                        kw.arg == 'tzinfo' and isinstance(kw.value, ast.Constant) and kw.value.value is None for kw in up.keywords):
+                    naive = True
+                up = m.parent(up)
+            n_aware += 1
+            res.ob('R1', fmt(key), 'date-time with a time zone: %s' % aware, naive)
+            if not naive:
+                res.violation('R1', '%s:%s:aware-datetime' % key, m.where(node),
+                              '%s produces a date-time that carries a time zone (%s): the converters measure date-times from a naive epoch, so '
+                              'turning it into a serial - adding days, N(), DATEVALUE, DAYS, a comparison - raises TypeError instead of '
+                              'seeing the serial' % (key[1], aware), func=key[1])
+    res.analysed['time-zone aware constructions'] = n_aware
     # the exposing functions reach the converters
     users = []
     for name in ('DATEVALUE', 'N', 'DAYS', 'DATEDIF', 'TIMEVALUE'):
@@ -316,6 +349,20 @@ def _r2(model, res, c, um):
                 res.violation('R2', 'converters:date-serial-date', um.where(um.functions['parse_date']),
                               'converting a date-time in %s..%s to its serial and back does not return it (composition t -> %s)'
                               % (_dt(sub.lo), _dt(sub.hi), 'error' if comp is None else '%s*t%+g' % (comp[0], float(comp[1]))), func='parse_date')
+    # ---- the phantom day: serial 60 (29 February 1900, which never was) reads as the day after 28 February, so that adding one day to
+    # 28 February 1900 moves on - P(59) = 28 February and P(60) = P(61) = 1 March; the other way round "28 February + 1" would stand still
+    for point, want, what in ((Fraction(59), T_MAR1 - 86400, '28 February 1900'), (Fraction(60), T_MAR1, '1 March 1900 (the day after 28 February)'),
+                              (Fraction(61), T_MAR1, '1 March 1900')):
+        for ivp, vp, op_ in Pv:
+            if ivp.meet(Iv(point, True, point, True)).empty() or vp is None or vp.kind != 'dt':
+                continue
+            got = vp.coeff * point + vp.const
+            ok = got == want
+            res.ob('R2', site_p, {'serial': int(point), 'expected': what}, ok, _dt(got))
+            if not ok:
+                res.violation('R2', site_p + ':phantom-day', um.where(um.functions['parse_date']),
+                              'serial %d converts to %s; it must be %s: around the phantom 29 February 1900 the serials 59, 60, 61 read as 28 February, '
+                              '1 March, 1 March, so that a date plus one day is never the same date' % (int(point), _dt(got), what), func='parse_date')
     # ---- S o P = id on [61, 2958465]
     dom = Iv(Fraction(61), True, Fraction(2958465), True)
     for ivp, vp, op_ in Pv:
